@@ -2131,6 +2131,14 @@ class Transport(threading.Thread, ClosingContextManager):
             reply.add_int(OPEN_FAILED_ADMINISTRATIVELY_PROHIBITED)
             reply.add_string("")
             reply.add_string("en")
+        # Anything else in this class (replies to requests we never made) is a
+        # protocol violation; there is nothing sensible to answer it with.
+        else:
+            raise SSHException(
+                "Message type {:d} is not allowed before authentication".format(
+                    ptype
+                )
+            )
         # NOTE: Post-open channel messages do not need checking; the above will
         # reject attempts to open channels, meaning that even if a malicious
         # user tries to send a MSG_CHANNEL_REQUEST, it will simply fall under
